@@ -4,6 +4,7 @@ and non-vacuity examples live here; helper lemmas are in `Golib/Proof/C12*.lean`
 -/
 import Golib.Proof.C12Atomic
 import Golib.Proof.C12KVSpec
+import Golib.Proof.C12Expand
 import Golib.Gen.FactsC12
 
 namespace Golib.C12
@@ -51,6 +52,27 @@ theorem c12_safekv_raceFree (s₀ : KV) (calls : Nat → List Call) (init : Nat 
   have := c12_bodies_ok cl
   simp only [bodyOK, Bool.and_eq_true] at this
   exact this.1
+
+/-- Loops and branches: the extractor lists a loop / branch body once; a real execution
+is an EXPANSION (`Expands`: lock events as listed, between them any sequence of the
+non-lock events of that segment).  Every expansion of a body passing the obligation
+passes it, so `c12_wellLocked_raceFree` and `c12_atomic` cover the executions with
+any number of loop iterations and any branch outcomes. -/
+theorem c12_expansion_ok (b a : List Ev) (hx : Expands b a) (h : bodyOK b = true) :
+    bodyOK a = true := hx.bodyOK h
+
+/-- Non-vacuity: `Range` with its loop body (`read` of the next entry, `callFn`)
+executed twice is an expansion of the extracted `[rlock, read, callFn, runlock]`. -/
+example : Expands [.rlock, .read, .callFn, .runlock]
+    [.rlock, .read, .callFn, .read, .callFn, .runlock] := by
+  refine Expands.cross (seg := []) (by simp) rfl ?_
+  have hs : ∀ x ∈ [Ev.read, Ev.callFn], x.isLockEv = false := by
+    intro x hx; simp at hx; rcases hx with rfl | rfl <;> rfl
+  refine Expands.acc (seg := [.read, .callFn]) hs (by simp) ?_
+  refine Expands.acc (seg := [.read, .callFn]) hs (by simp) ?_
+  refine Expands.acc (seg := [.read, .callFn]) hs (by simp) ?_
+  refine Expands.acc (seg := [.read, .callFn]) hs (by simp) ?_
+  exact Expands.cross (seg := [.read, .callFn]) hs rfl (Expands.done (by simp))
 
 /-- `c12_no_interference`: while a goroutine holds the lock in either mode, no step of
 any OTHER goroutine changes the shared state (well-locked bodies, every reachable
